@@ -987,6 +987,14 @@ impl World {
 
     pub fn server_disconnect(&mut self, reason: u8, form: u8, with_props: bool) {
         let n = self.next_nonce();
+        // scripts ask for "a failing reason" with 0x8b; which of the 27 a server may send it is rotates from one DISCONNECT to
+        // the next (every one of them ends run() with Disconnected carrying that reason, and does nothing else)
+        let reason = if reason == 0x8b && form >= 1 {
+            let rs = &rc::DISCONNECT_REASONS_SERVER[1..];
+            rs[(n as usize + self.m.len()) % rs.len()]
+        } else {
+            reason
+        };
         let mut props = Vec::new();
         let mut rs = None;
         let mut sr = None;
@@ -1987,6 +1995,16 @@ impl World {
                         self.viol(P_C05_06, format!("C05/wrong-result/{}", kind.name()), format!("op{i}: expected {}, got {}", e.brief(), o.brief()));
                     }
                     self.m[i].checked_done = true;
+                }
+                // an operation that was written and is waiting for its acknowledgement has nothing to complete with when the
+                // connection ends: it stays pending (the session keeps it) or, once the context is gone, fails with
+                // ContextExited - any other result is a completion without its acknowledgement
+                if let (None, Some(o)) = (&self.m[i].expected, &out) {
+                    if self.m[i].req_wire.is_some() && !matches!(kind, Kind::Pub0 | Kind::Disc) && !self.m[i].checked_done && !self.m[i].after_term && !matches!(o.err(), Some(ErrSum::ContextExited)) {
+                        let o = o.brief();
+                        self.viol(&["C05", "C14"], format!("C05/completed-without-its-ack/at-connection-end/{}", kind.name()), format!("op{i} ({}): written, unanswered when the connection ended, and completed with {o}", kind.name()));
+                        self.m[i].checked_done = true;
+                    }
                 }
                 continue;
             }
